@@ -97,6 +97,12 @@ func NewPositionRange(lines []string, val *yaml.Node, minColumn int) (offsets Po
 	need := val.Value[needIndex]
 	lineIndex := val.Line
 	columnIndex := val.Column
+	if val.Style&(yaml.LiteralStyle|yaml.FoldedStyle) != 0 {
+		// the node position of a block scalar is its indicator: nothing on the header line (chomping sign,
+		// comment) belongs to the value
+		lineIndex++
+		columnIndex = 1
+	}
 
 	for lineIndex <= len(lines) {
 		// Append new line but only if we already have any tokens.
